@@ -382,3 +382,33 @@ package alephium
 //@   closure [lit]#2:
 //@     delegates client.GetBlockHeader
 //@   end-closure
+
+// ---------------------------------------------------------------- the height poller and the watcher's wiring (C08, C09)
+
+// While the poller is switched on every tick asks the node for the current height and hands
+// exactly that height to the event loop (also when it did not change: the wall-clock rule needs
+// the tick); while it is off nothing is asked. The height oracle is the node client.
+//@ func (w *Watcher) _fetchHeight(ctx context.Context, logger *zap.Logger, getCurrentHeight func() (*int32, error), errC chan<- error, heightC chan<- int32)
+//@   props C08 C09
+//@   requires w != nil
+//@   modifies *
+//@   at [heightC <- *latestHeight]: assert [hands-over-the-height-just-read] err == nil && latestHeight != nil && enabled
+//@   loop [for]:
+//@     invariant [self] w != nil
+//@ func (w *Watcher) fetchHeight(ctx context.Context, logger *zap.Logger, client *Client, errC chan<- error, heightC chan<- int32)
+//@   props C08 C09
+//@   assume-contract
+//@   wiring w._fetchHeight: $arg3 $arg4 == errC heightC
+//@   closure [lit]#1:
+//@     delegates client.GetCurrentHeight
+//@   end-closure
+
+// Run starts the four goroutines on one client and connects the fetcher and the height poller
+// to the event loop through their own two queues.
+//@ func (w *Watcher) Run(ctx context.Context) (err error)
+//@   props C08 C09
+//@   assume-contract
+//@   wiring w.fetchEvents: $arg2 $arg4 == w.client eventsC
+//@   wiring w.fetchHeight: $arg2 $arg4 == w.client heightC
+//@   wiring w.handleEvents: $arg2 $arg4 $arg5 == w.client eventsC heightC
+//@   wiring w.handleObsvRequest: $arg2 == w.client
